@@ -452,9 +452,111 @@ static void scen_blockq(void) {
 	Block_release(BK.b);
 }
 
+/* ---- scenario 7: one object given new target queues by several threads at once ----
+ * (every queue it ever targets has a finalizer: a queue is finalised once, only after the application has dropped
+ * its own reference and the object no longer targets it, and the queue the object targets at the end lives until the
+ * object goes) */
+#define RT_MAXQ (2 + MAXC * 4)
+static struct { dispatch_queue_t tq[RT_MAXQ]; fin f[RT_MAXQ]; int released[RT_MAXQ], ntq, kind, obj_fin; dispatch_object_t o; int handler_runs; } RT;
+static void rt_fin(void *ctx) {
+	int i = (int)(intptr_t)ctx - 1;
+	RT.f[i].count++; RT.f[i].stamp = h_stamp();
+	h_log("finalizer of target queue %d runs", i);
+	if (RT.f[i].count > 1) h_viol("finalizer-twice", "the finalizer of target queue %d ran %d times", i, RT.f[i].count);
+	if (!RT.released[i]) h_viol("finalizer-early", "target queue %d was finalised while the application still held its own reference to it", i);
+	h_progress();
+}
+static void rt_obj_fin(void *ctx) { (void)ctx; RT.obj_fin++; h_progress(); }
+static void rt_item(void *ctx) { (void)ctx; RT.handler_runs++; h_progress(); }
+static int rt_new_queue(int conc) {
+	int i = RT.ntq++;
+	char nm[24]; snprintf(nm, sizeof nm, "c17-rt%d", i);
+	RT.tq[i] = dispatch_queue_create(nm, conc ? DISPATCH_QUEUE_CONCURRENT : NULL);
+	dispatch_set_context(RT.tq[i], (void *)(intptr_t)(i + 1)); dispatch_set_finalizer_f(RT.tq[i], rt_fin);
+	return i;
+}
+static void *retarget_client(void *arg) {
+	int c = (int)(intptr_t)arg;
+	sim_event_wait(&L.go, LIVENESS_NS);
+	for (int r = 0; r < L.nitems_per; r++) {
+		int i = rt_new_queue((c + r) & 1);
+		if (L.arm_rel && r == 0 && c < 2) sim_arm_stall((uint32_t)(1 + L.arm_rel % 12), L.arm_code);
+		dispatch_set_target_queue(RT.o, RT.tq[i]);
+		L.items_ended++;
+		sim_point();
+		if (L.nested && c == 0 && r == 0) dispatch_set_target_queue(RT.o, DISPATCH_TARGET_QUEUE_DEFAULT);   // a global queue: no reference involved
+		// the object keeps its target alive by itself: the creator lets go right away
+		RT.released[i] = 1; dispatch_release(RT.tq[i]);
+	}
+	L.done++; h_progress();
+	return NULL;
+}
+static bool rt_clients_done(void *c) { (void)c; return L.done >= L.nclients; }
+static int rt_finalised(int from) { int n = 0; for (int i = from; i < RT.ntq; i++) n += RT.f[i].count ? 1 : 0; return n; }
+static bool rt_all_but_one(void *c) { (void)c; return rt_finalised(1) >= RT.ntq - 2; }
+static bool rt_first_gone(void *c) { (void)c; return RT.f[0].count >= 1; }
+static bool rt_all_gone(void *c) { (void)c; return rt_finalised(0) >= RT.ntq && RT.obj_fin >= 1; }
+static void scen_retarget(void) {
+	memset(&RT, 0, sizeof RT);
+	L.tq_kind = 2;
+	if (L.nitems_per < 1) L.nitems_per = 1;
+	RT.kind = (int)g_n(5);
+	static const char *const kn[] = { "group", "semaphore", "initially inactive queue", "not yet activated source", "data object" };
+	h_log("object under test: %s", kn[RT.kind]);
+	switch (RT.kind) {
+	case 0: RT.o = (dispatch_object_t)dispatch_group_create(); break;
+	case 1: RT.o = (dispatch_object_t)dispatch_semaphore_create(1); break;
+	case 2: RT.o = (dispatch_object_t)dispatch_queue_create("c17-rtq", dispatch_queue_attr_make_initially_inactive(g_chance(1, 2) ? DISPATCH_QUEUE_CONCURRENT : NULL)); break;
+	case 3: RT.o = (dispatch_object_t)dispatch_source_create(DISPATCH_SOURCE_TYPE_DATA_ADD, 0, 0, NULL); dispatch_source_set_event_handler_f((dispatch_source_t)(struct dispatch_object_s *)RT.o._do, rt_item); break;
+	default: RT.o = (dispatch_object_t)dispatch_data_create("c17", 3, NULL, DISPATCH_DATA_DESTRUCTOR_DEFAULT); break;
+	}
+	L.obj = (void *)RT.o._do;
+	if (RT.kind != 4) { dispatch_set_context(RT.o, &L.ctx1); dispatch_set_finalizer_f(RT.o, rt_obj_fin); } else RT.obj_fin = 1;
+	sim_watch(L.obj, 96);
+	// the first target: held by the application until every thread is done with the object
+	int first = rt_new_queue(0);
+	dispatch_set_target_queue(RT.o, RT.tq[first]);
+	sim_thread *th[MAXC];
+	for (int i = 0; i < L.nclients; i++) th[i] = sim_spawn(retarget_client, (void *)(intptr_t)i, "c17-client");
+	sim_event_signal(&L.go);
+	h_end_fault_phase(th, L.nclients, 5 * NSEC);
+	if (h_wait_until(rt_clients_done, NULL, LIVENESS_NS)) h_stuck("liveness", "a dispatch_set_target_queue call did not return");
+	// every queue the object was moved away from has lost its last reference; exactly one is still targeted
+	if (h_wait_until(rt_all_but_one, NULL, LIVENESS_NS)) {
+		char b[160]; snprintf(b, sizeof b, "%d of %d queues the object was given and moved away from again were never finalised although their creators released them", RT.ntq - 2 - rt_finalised(1), RT.ntq - 2);
+		h_stuck("finalizer-missing", b);
+	}
+	h_settle(20 * MSEC);
+	if (!L.nested && rt_finalised(1) > RT.ntq - 2) h_viol("target-freed-early", "all %d queues the threads gave the object are finalised while the object still exists: the queue it targets now was freed under it", RT.ntq - 1);
+	if (RT.f[0].count) h_viol("finalizer-early", "the first target queue was finalised while the application still held it");
+	(void)dispatch_queue_get_label(RT.tq[0]);
+	RT.released[0] = 1; dispatch_release(RT.tq[0]);
+	if (h_wait_until(rt_first_gone, NULL, LIVENESS_NS)) h_stuck("finalizer-missing", "the first target queue was never finalised although the object no longer targets it and the application released it");
+	// the object is used once on whatever it targets now, then goes
+	if (RT.kind == 2) { dispatch_queue_t q = (dispatch_queue_t)(struct dispatch_object_s *)RT.o._do; dispatch_activate(q); dispatch_sync_f(q, NULL, rt_item); if (RT.handler_runs != 1) h_viol("harness", "sync item did not run"); }
+	if (RT.kind == 3) {
+		dispatch_source_t s = (dispatch_source_t)(struct dispatch_object_s *)RT.o._do;
+		dispatch_activate(s); dispatch_source_merge_data(s, 1);
+		{ uint64_t t0 = sim_now(); while (!RT.handler_runs && sim_now() - t0 < LIVENESS_NS) sim_sleep_ns(1 * MSEC); }
+		if (!RT.handler_runs) h_viol("liveness", "the source's handler never ran on the queue the source was given last");
+		dispatch_source_cancel(s);
+	}
+	dispatch_release(RT.o);
+	if (h_wait_until(rt_all_gone, NULL, LIVENESS_NS)) {
+		char b[160]; snprintf(b, sizeof b, "%d of %d target queues finalised, object finalizer ran %d time(s) after the object and every queue were released", rt_finalised(0), RT.ntq, RT.obj_fin);
+		h_stuck("finalizer-missing", b);
+	}
+	h_settle(20 * MSEC);
+	for (int i = 0; i < RT.ntq; i++) {
+		if (RT.f[i].count != 1) h_viol("finalizer-twice", "finalizer of target queue %d ran %d times", i, RT.f[i].count);
+		if (OWNED(RT.tq[i])) h_viol("not-freed", "target queue %d is still allocated after its finalizer ran", i);
+	}
+	L.f_obj.count = 1;   // for the non-trivial measure
+}
+
 static void c17_run(void) {
 	memset(&L, 0, sizeof L);
-	{ int r = (int)g_n(22); L.scenario = r < 9 ? 0 : r < 12 ? 1 : r < 15 ? 2 : r < 17 ? 3 : r < 19 ? 4 : r < 20 ? 5 : 6; }
+	{ int r = (int)g_n(25); L.scenario = r < 9 ? 0 : r < 12 ? 1 : r < 15 ? 2 : r < 17 ? 3 : r < 19 ? 4 : r < 20 ? 5 : r < 22 ? 6 : 7; }
 	L.nclients = g_range(2, MAXC); L.nitems_per = g_range(0, 4);
 	L.susp = g_chance(1, 2); L.nested = g_chance(1, 2); L.last_from_item = g_chance(1, 3); L.set_ctx_late = g_chance(1, 4);
 	if (L.scenario != 0) { L.last_from_item = 0; L.set_ctx_late = 0; }
@@ -464,12 +566,13 @@ static void c17_run(void) {
 	if (L.scenario == 0 && g_chance(1, 3)) { L.last_from_item = 1; if (L.nitems_per < 2) L.nitems_per = 2; }
 	static const char *const sn[] = { "queue (context, finalizer, specific keys) targeting a queue its creator has already released", "group released while non-empty", "source released with events in flight",
 		"semaphore shared by signallers and waiters", "I/O channel released with a read in flight", "data objects built on one buffer released from several threads",
-		"queue with a block object running on it while another thread is in dispatch_block_wait" };
-	h_sample("%s; %d clients x %d items%s%s%s%s\n", sn[L.scenario], L.nclients, L.nitems_per, L.susp ? ", suspend/resume" : "", L.nested ? (L.scenario == 2 ? ", timer" : L.scenario == 4 ? ", close(STOP)" : ", nested submission") : "",
+		"queue with a block object running on it while another thread is in dispatch_block_wait",
+		"object (group, semaphore, inactive queue, inactive source or data) given new target queues by several threads at once" };
+	h_sample("%s; %d clients x %d items%s%s%s%s\n", sn[L.scenario], L.nclients, L.nitems_per, L.susp ? ", suspend/resume" : "", L.nested ? (L.scenario == 2 ? ", timer" : L.scenario == 4 ? ", close(STOP)" : L.scenario == 7 ? ", the default target in between" : ", nested submission") : "",
 		L.last_from_item ? ", one reference dropped from inside the last item" : L.no_cancel ? ", never cancelled" : "", L.set_ctx_late ? ", context replaced before the last release" : "");
 	h_announce();
-	switch (L.scenario) { case 0: scen_queue(); break; case 1: scen_group(); break; case 2: scen_source(); break; case 3: scen_sema(); break; case 4: scen_io(); break; case 5: scen_data(); break; default: scen_blockq(); }
-	RES.counters[0] = L.items_ended; RES.counters[1] = L.releases_returned; RES.counters[2] = L.f_obj.count; RES.counters[3 + L.scenario] = 1;   /* 3..8 */
+	switch (L.scenario) { case 0: scen_queue(); break; case 1: scen_group(); break; case 2: scen_source(); break; case 3: scen_sema(); break; case 4: scen_io(); break; case 5: scen_data(); break; case 6: scen_blockq(); break; default: scen_retarget(); }
+	RES.counters[0] = L.items_ended; RES.counters[1] = L.releases_returned; RES.counters[2] = L.f_obj.count; RES.counters[3 + L.scenario] = 1;   /* 3..10 */
 	RES.nontrivial = L.f_obj.count == 1 && (sim_st.watched_preempts > 0 || sim_st.fired[K_STALL] > 0);
 }
 static void c17_tune(sim_knobs *k, unsigned cfg, uint64_t *g) {
@@ -481,6 +584,6 @@ static void c17_tune(sim_knobs *k, unsigned cfg, uint64_t *g) {
 	else if (r < 60) k->strategy = STRAT_PCT;
 	k->alloc_den = 0;
 }
-static const char *const c17_names[] = { "items_or_handler_invocations", "references_dropped", "finalizers_run", "queue_runs", "group_runs", "source_runs", "semaphore_runs", "io_channel_runs", "data_runs", "block_wait_runs", NULL };
+static const char *const c17_names[] = { "items_or_handler_invocations", "references_dropped", "finalizers_run", "queue_runs", "group_runs", "source_runs", "semaphore_runs", "io_channel_runs", "data_runs", "block_wait_runs", "concurrent_retarget_runs", NULL };
 const prop_def prop_C17 = { "C17", c17_tune, c17_run, c17_names,
 	"non-trivial: the object's finalizer ran and a pre-emption or injected stall was taken inside the object's atomics; distinct = distinct schedule signatures among those" };
